@@ -60,10 +60,10 @@ vars == <<l, S, mode, scen, ups, fet, immobj, viol, obs>>
 e == Trace[l]
 
 SeqRange(s) == {s[i] : i \in DOMAIN s}
-AddV(old, names) == old \cup {<<nm, l>> : nm \in {x \in names : ~\E u \in old : u[1] = x}}
+AddV(old, names) == old \cup {<<nm, l - scen.start>> : nm \in {x \in names : ~\E u \in old : u[1] = x}}
 F(name, ok) == IF ok THEN {} ELSE {name}
 
-NoScen == [scenario |-> "", conf |-> <<>>, seq |-> TRUE, dump |-> FALSE, init |-> <<>>]
+NoScen == [scenario |-> "", conf |-> <<>>, seq |-> TRUE, dump |-> FALSE, init |-> <<>>, start |-> 0]
 
 -----------------------------------------------------------------------------
 \* histories
@@ -145,7 +145,8 @@ Init == /\ l = 1 /\ S = Empty /\ mode = "run" /\ scen = NoScen
 DoReset ==
     /\ e.ev = "Reset"
     /\ (scen.scenario # "" => Report)
-    /\ scen' = [scenario |-> e.scenario, conf |-> e.conf, seq |-> e.seq, dump |-> e.dump, init |-> e.init]
+    /\ scen' = [scenario |-> e.scenario, conf |-> e.conf, seq |-> e.seq, dump |-> e.dump, init |-> e.init,
+                 start |-> l]   \* reported positions are relative to the scenario's Reset record
     /\ S' = Build(Empty, e.init, 1)
     /\ ups' = <<>> /\ fet' = NoFn /\ viol' = {}
     /\ immobj' = [k \in {e.carry[i].path : i \in DOMAIN e.carry} |->
@@ -281,12 +282,12 @@ PowerLoss ==
     /\ mode = "run" /\ scen.scenario # "" /\ l <= Len(Trace)
     /\ \/ \E p \in Tracked(ups) : \E r \in PossibleReads(S, p) :
              LET v == OneReadViol(p, r, ups, l) IN
-             /\ (v # {} => PrintT(<<"CRASH", scen.scenario, v, l>>))
+             /\ (v # {} => PrintT(<<"CRASH", scen.scenario, v, l - scen.start>>))
              /\ obs' = <<p, r>>
              /\ S' = S
        \/ /\ scen.dump /\ SmallLoss(S)
           /\ \E X \in CrashStates(S) :
-                /\ PrintT(<<"CRASHSTATE", scen.scenario, l, FlatTree(X), Carry>>)
+                /\ PrintT(<<"CRASHSTATE", scen.scenario, l - scen.start, FlatTree(X), Carry>>)
                 /\ S' = X /\ obs' = <<>>
     /\ mode' = "crashed"
     /\ UNCHANGED <<l, scen, ups, fet, immobj, viol>>
